@@ -43,17 +43,20 @@ func init() {
 	})
 }
 
+var cliInits map[string]*core.InitVal
+
 // cliModel resolves the CLI's unexported names by role.
 type cliModel struct {
 	ccMap, sepMap, capMap, defaults string            // global names
 	flagOf                          map[string]string // global var -> "set/flagname"
+	flagDirect                      map[string]bool   // the global holds the value itself (XxxVar form), not a pointer to it
 	charGen, wlGen, classFlags      *ssa.Function
 	sepFor, capFor                  *ssa.Function
 	builtinList, fileList, usage    *ssa.Function
 }
 
 func resolveCLI(p *core.Program, inits map[string]*core.InitVal) *cliModel {
-	m := &cliModel{flagOf: map[string]string{}}
+	m := &cliModel{flagOf: map[string]string{}, flagDirect: map[string]bool{}}
 	for name, mem := range p.Cmd.Members {
 		g, ok := mem.(*ssa.Global)
 		if !ok {
@@ -91,6 +94,18 @@ func resolveCLI(p *core.Program, inits map[string]*core.InitVal) *cliModel {
 			case "(*flag.FlagSet).Int", "(*flag.FlagSet).String", "(*flag.FlagSet).Bool":
 				n, _ := core.ConstString(iv.Call.Call.Args[1])
 				m.flagOf[name] = n
+			}
+		}
+	}
+	for _, initFn := range cmdInitFuncs(p) {
+		for _, c := range core.Calls(initFn) {
+			switch core.CallName(c) {
+			case "(*flag.FlagSet).IntVar", "(*flag.FlagSet).StringVar", "(*flag.FlagSet).BoolVar":
+				if g, ok := c.Common().Args[1].(*ssa.Global); ok && g.Pkg == p.Cmd {
+					n, _ := core.ConstString(c.Common().Args[2])
+					m.flagOf[g.Name()] = n
+					m.flagDirect[g.Name()] = true
+				}
 			}
 		}
 	}
@@ -145,9 +160,9 @@ func resolveCLI(p *core.Program, inits map[string]*core.InitVal) *cliModel {
 		}
 	}
 	// usage printer: niladic function called in main in a block that exits
-	if mainFn := p.CmdFunc("main"); mainFn != nil {
+	if mainFn, retStatus := cliDriver(p); mainFn != nil {
 		for _, b := range mainFn.Blocks {
-			if !blockExits(b) {
+			if k, ends := exitStatus(b, retStatus); !blockExits(b) && !(retStatus && ends && k == 2) {
 				continue
 			}
 			for _, in := range b.Instrs {
@@ -169,6 +184,7 @@ func runC17(p *core.Program, r *core.Report) {
 	}
 	inits := core.GlobalInits(p.Cmd)
 	cli = resolveCLI(p, inits)
+	cliInits = inits
 	initFn := core.PackageInit(p.Cmd)
 	_ = initFn
 
@@ -192,8 +208,8 @@ func runC17(p *core.Program, r *core.Report) {
 		}
 		r.Check(len(got) == len(wantCC), "R17.1", "init", "ccMap has exactly the five documented words", p.Pos(iv.Store.Pos()), fmt.Sprint(len(got)))
 	}
-	if iv := inits[cli.capMap]; iv == nil || iv.Map == nil {
-		r.Unrecognised("R17.1", "init", "capitalizeMap", "", "map literal not found")
+	if iv := lookupTable(p, inits, cli.capFor, cli.capMap); iv == nil {
+		r.Unrecognised("R17.1", "init", "capitalizeMap", "", "neither a map literal nor a switch on the flag value found")
 	} else {
 		caps := core.ConstsOfType(p.LibPkg.Types, "CapScheme")
 		valSet := map[string]bool{}
@@ -208,11 +224,11 @@ func runC17(p *core.Program, r *core.Report) {
 			seen[v] = true
 			r.Check(k == v && valSet[v], "R17.1", "init", "capitalizeMap[\""+k+"\"] is the CapScheme constant of the same word", p.Pos(e.Pos), "maps to "+v)
 		}
-		r.Check(len(seen) == len(valSet), "R17.1", "init", "capitalizeMap covers all CapScheme constants", p.Pos(iv.Store.Pos()), fmt.Sprintf("%d of %d", len(seen), len(valSet)))
+		r.Check(len(seen) == len(valSet), "R17.1", "init", "capitalizeMap covers all CapScheme constants", p.Pos(iv.Pos), fmt.Sprintf("%d of %d", len(seen), len(valSet)))
 	}
 	wantSep := map[string]string{"hyphen": "-", "space": " ", "comma": ",", "period": ".", "underscore": "_"}
-	if iv := inits[cli.sepMap]; iv == nil || iv.Map == nil {
-		r.Unrecognised("R17.1", "init", "separatorMap", "", "map literal not found")
+	if iv := lookupTable(p, inits, cli.sepFor, cli.sepMap); iv == nil {
+		r.Unrecognised("R17.1", "init", "separatorMap", "", "neither a map literal nor a switch on the flag value found")
 	} else {
 		n := 0
 		for _, e := range iv.Map {
@@ -243,7 +259,7 @@ func runC17(p *core.Program, r *core.Report) {
 			}
 			r.Check(okv && wantG != "", "R17.1", "init", "separatorMap[\""+k+"\"] is spg."+wantG, pos, core.Describe(e.Value))
 		}
-		r.Check(n == 7, "R17.1", "init", "separatorMap has exactly the seven documented words", p.Pos(iv.Store.Pos()), fmt.Sprint(n))
+		r.Check(n == 7, "R17.1", "init", "separatorMap has exactly the seven documented words", p.Pos(iv.Pos), fmt.Sprint(n))
 	}
 	checkUsageText(p, r, mapKeys)
 
@@ -363,7 +379,6 @@ type flagDef struct {
 }
 
 func checkFlagDefaults(p *core.Program, r *core.Report, inits map[string]*core.InitVal) {
-	initFn := core.PackageInit(p.Cmd)
 	defs := map[string]flagDef{}
 	setName := func(v ssa.Value) string {
 		if ld, ok := v.(*ssa.UnOp); ok && ld.Op == token.MUL {
@@ -376,7 +391,7 @@ func checkFlagDefaults(p *core.Program, r *core.Report, inits map[string]*core.I
 		}
 		return "?"
 	}
-	core.Instrs(initFn, func(in ssa.Instruction) {
+	scan := func(in ssa.Instruction) {
 		c, ok := in.(*ssa.Call)
 		if !ok {
 			return
@@ -386,11 +401,18 @@ func checkFlagDefaults(p *core.Program, r *core.Report, inits map[string]*core.I
 			n, _ := core.ConstString(c.Call.Args[1])
 			s := setName(c.Call.Args[0])
 			defs[s+"/"+n] = flagDef{s, n, c.Call.Args[2], p.InstrPos(c)}
+		case "(*flag.FlagSet).IntVar", "(*flag.FlagSet).StringVar", "(*flag.FlagSet).BoolVar":
+			n, _ := core.ConstString(c.Call.Args[2])
+			s := setName(c.Call.Args[0])
+			defs[s+"/"+n] = flagDef{s, n, c.Call.Args[3], p.InstrPos(c)}
 		case "flag.NewFlagSet":
 			k, isC := core.ConstInt(c.Call.Args[1])
 			r.Trivial(isC && k == 1, "R17.4", "init", "flag set is ExitOnError (unknown flag exits with status 2)", p.InstrPos(c), fmt.Sprint(k))
 		}
-	})
+	}
+	for _, f := range cmdInitFuncs(p) {
+		core.Instrs(f, scan)
+	}
 	// defaultCharRecipe
 	dcr := inits[cli.defaults]
 	var dLen int64 = -1
@@ -516,6 +538,24 @@ func checkFlagDefaults(p *core.Program, r *core.Report, inits map[string]*core.I
 			}
 		}
 	})
+	var tblOK ssa.Value
+	core.Instrs(pw, func(in ssa.Instruction) {
+		ex, ok := in.(*ssa.Extract)
+		if !ok || ex.Index != 0 {
+			return
+		}
+		if lk, tbl, isTbl := builtinListLookup(p, ex, pw.Params[0]); isTbl {
+			for w, gname := range tbl {
+				found[w] = true
+				r.Check(wantList[w] == gname, "R17.2", "parseWordList", "list word \""+w+"\" selects spg."+wantList[w], p.InstrPos(lk), "selects "+gname)
+			}
+			for _, ref := range core.Referrers(lk) {
+				if e1, isEx := ref.(*ssa.Extract); isEx && e1.Index == 1 {
+					tblOK = e1
+				}
+			}
+		}
+	})
 	r.Check(found["words"] && found["syllables"], "R17.2", "parseWordList", "both shipped lists are selectable", p.Pos(pw.Pos()), fmt.Sprint(found))
 	// default case exits with usage
 	okExit := false
@@ -530,6 +570,11 @@ func checkFlagDefaults(p *core.Program, r *core.Report, inits map[string]*core.I
 				}
 				if neither >= 2 {
 					okExit = true
+				}
+				for _, gd := range core.Guards(c.Block()) {
+					if tblOK != nil && gd.Cond == tblOK && !gd.Pos {
+						okExit = true // the table has no such word
+					}
 				}
 			}
 		}
@@ -553,12 +598,15 @@ func checkWiring(p *core.Program, r *core.Report) {
 		if !ok || ld.Op != token.MUL {
 			return false
 		}
+		if g, isG := ld.X.(*ssa.Global); isG {
+			return cli.flagDirect[g.Name()] && cli.flagOf[g.Name()] == flagVar
+		}
 		ld2, ok := ld.X.(*ssa.UnOp)
 		if !ok || ld2.Op != token.MUL {
 			return false
 		}
 		g, ok := ld2.X.(*ssa.Global)
-		return ok && cli.flagOf[g.Name()] == flagVar
+		return ok && !cli.flagDirect[g.Name()] && cli.flagOf[g.Name()] == flagVar
 	}
 	defaultField := func(v ssa.Value, field string) bool {
 		ref, ok := core.LoadPath(v)
@@ -658,7 +706,7 @@ func checkWiring(p *core.Program, r *core.Report) {
 				c, ok := v.(*ssa.Call)
 				okv := ok && core.StaticCallee(c) != nil && len(c.Call.Args) == 1 && flagLoad(c.Call.Args[0], fl[0])
 				if okv {
-					okv = isMapLookupOf(core.StaticCallee(c), fl[1])
+					okv = lookupTable(p, nil, core.StaticCallee(c), fl[1]) != nil
 				}
 				r.Check(okv, "R17.3", name, "recipe."+field+" = table lookup of *--"+fl[0], p.Pos(wlF.Pos()), core.Describe(v))
 			}
@@ -722,10 +770,16 @@ func checkWiring(p *core.Program, r *core.Report) {
 					return false
 				}
 				okArg = check(arg, 0)
+				if _, _, isTbl := builtinListLookup(p, arg, src.Params[0]); isTbl {
+					okArg = true
+				}
 			}
 			r.Check(okArg, "R17.3", name, "the word list handed to spg.NewWordList is the unmodified source", p.InstrPos(cv), why)
 			// the result is what is returned
 			for _, ret := range core.Returns(src) {
+				if blockExits(ret.Block()) {
+					continue // unreachable `return` spelled out after log.Fatal/os.Exit
+				}
 				ex, ok := ret.Results[0].(*ssa.Extract)
 				r.Check(ok && ex.Tuple == ssa.Value(cv) && ex.Index == 0, "R17.3", name, "the library's word list is returned as is", p.InstrPos(ret), core.Describe(ret.Results[0]))
 			}
@@ -813,6 +867,157 @@ func checkWiring(p *core.Program, r *core.Report) {
 	}
 }
 
+// builtinListLookup: v is (the value half of) `M[param]` over a package-level map
+// literal of the CLI all of whose values are shipped lists of the library;
+// returns the lookup and word -> library global.
+func builtinListLookup(p *core.Program, v ssa.Value, param ssa.Value) (*ssa.Lookup, map[string]string, bool) {
+	if ex, ok := v.(*ssa.Extract); ok && ex.Index == 0 {
+		v = ex.Tuple
+	}
+	lk, ok := v.(*ssa.Lookup)
+	if !ok || lk.Index != param || cliInits == nil {
+		return nil, nil, false
+	}
+	ld, ok := lk.X.(*ssa.UnOp)
+	if !ok {
+		return nil, nil, false
+	}
+	g, ok := ld.X.(*ssa.Global)
+	if !ok || g.Pkg != p.Cmd {
+		return nil, nil, false
+	}
+	iv := cliInits[g.Name()]
+	if iv == nil || iv.Map == nil || iv.NStores != 1 {
+		return nil, nil, false
+	}
+	out := map[string]string{}
+	for _, e := range iv.Map {
+		k, isS := core.ConstString(e.Key)
+		l, isL := e.Value.(*ssa.UnOp)
+		if !isS || !isL {
+			return nil, nil, false
+		}
+		lg, isG := l.X.(*ssa.Global)
+		if !isG || lg.Pkg != p.Lib {
+			return nil, nil, false
+		}
+		out[k] = lg.Name()
+	}
+	return lk, out, len(out) > 0
+}
+
+// table is a word -> value table of the CLI, read either from a map literal
+// (looked up by a one-parameter function) or from a switch on the parameter.
+type table struct {
+	Map []core.MapEntry
+	Pos token.Pos
+}
+
+// lookupTable resolves the table behind lookup function f: `return M[value]`
+// (plain or comma-ok with the zero value for unknown words) over a package-level
+// map literal M, or a switch/if-chain on value == "word" returning one value per
+// word and the zero value otherwise. With inits == nil only the shape is decided.
+func lookupTable(p *core.Program, inits map[string]*core.InitVal, f *ssa.Function, global string) *table {
+	if f == nil || len(f.Params) != 1 {
+		if inits != nil && global != "" {
+			if iv := inits[global]; iv != nil && iv.Map != nil {
+				return &table{iv.Map, iv.Store.Pos()}
+			}
+		}
+		return nil
+	}
+	param := ssa.Value(f.Params[0])
+	rets := core.Returns(f)
+	if len(rets) == 0 {
+		return nil
+	}
+	// map form
+	var g *ssa.Global
+	mapForm := true
+	for _, ret := range rets {
+		if len(ret.Results) != 1 {
+			return nil
+		}
+		v := ret.Results[0]
+		if ex, ok := v.(*ssa.Extract); ok && ex.Index == 0 {
+			v = ex.Tuple
+		}
+		lk, ok := v.(*ssa.Lookup)
+		if !ok {
+			if isZeroValueConst(ret.Results[0]) && len(rets) > 1 {
+				continue // the comma-ok miss
+			}
+			mapForm = false
+			break
+		}
+		ld, ok := lk.X.(*ssa.UnOp)
+		if !ok || lk.Index != param {
+			mapForm = false
+			break
+		}
+		gg, ok := ld.X.(*ssa.Global)
+		if !ok || g != nil && g != gg {
+			mapForm = false
+			break
+		}
+		g = gg
+	}
+	if mapForm && g != nil {
+		if inits == nil {
+			return &table{}
+		}
+		if iv := inits[g.Name()]; iv != nil && iv.Map != nil {
+			return &table{iv.Map, iv.Store.Pos()}
+		}
+		return nil
+	}
+	// switch form
+	t := &table{Pos: f.Pos()}
+	seen := map[string]bool{}
+	for _, ret := range rets {
+		var key *ssa.Const
+		nEq := 0
+		for _, gd := range core.Guards(ret.Block()) {
+			rel, ok := core.AsRel(gd)
+			if !ok || rel.Op != token.EQL {
+				continue
+			}
+			x, y := rel.X, rel.Y
+			if y == param {
+				x, y = y, x
+			}
+			if x != param {
+				continue
+			}
+			c, isC := y.(*ssa.Const)
+			if !isC {
+				return nil
+			}
+			key = c
+			nEq++
+		}
+		switch {
+		case nEq == 0:
+			if !isZeroValueConst(ret.Results[0]) {
+				return nil // an unknown word must give the zero value
+			}
+		case nEq == 1:
+			k, _ := core.ConstString(key)
+			if seen[k] {
+				return nil
+			}
+			seen[k] = true
+			t.Map = append(t.Map, core.MapEntry{Key: key, Value: ret.Results[0], Pos: ret.Pos()})
+		default:
+			return nil
+		}
+	}
+	if len(t.Map) == 0 {
+		return nil
+	}
+	return t
+}
+
 // isMapLookupOf: f(value) returns table[value].
 func isMapLookupOf(f *ssa.Function, table string) bool {
 	if f == nil || len(f.Params) != 1 {
@@ -869,10 +1074,13 @@ func isOsFile(v ssa.Value, which string) bool {
 }
 
 func checkMainCFG(p *core.Program, r *core.Report) {
-	mainFn := p.CmdFunc("main")
+	mainFn, retStatus := cliDriver(p)
 	if mainFn == nil {
 		r.Unrecognised("R17.4", "main", "function", "", "not found")
 		return
+	}
+	if retStatus {
+		r.Note("main is os.Exit(%s(...)): control flow read from %s, `return k` = exit status k", mainFn.Name(), core.FuncName(mainFn))
 	}
 	name := core.FuncName(mainFn)
 	// exit status constants
@@ -963,22 +1171,11 @@ func checkMainCFG(p *core.Program, r *core.Report) {
 	}
 	// the blocks reached without a constructor that terminate must exit with 2
 	for b := range reachNoCtor {
-		if !dead[b] {
+		k, ends := exitStatus(b, retStatus)
+		if !ends || !dead[b] && !retStatus {
 			continue
 		}
-		for _, in := range b.Instrs {
-			c, ok := in.(ssa.CallInstruction)
-			if !ok || !isNoReturnCall(c) {
-				continue
-			}
-			okv := false
-			if core.CallName(c) == "os.Exit" {
-				if k, isC := core.ConstInt(c.Common().Args[0]); isC && k == 2 {
-					okv = true
-				}
-			}
-			r.Check(okv, "R17.4", name, "usage error exits with status 2", p.InstrPos(c), c.String())
-		}
+		r.Check(k == 2, "R17.4", name, "usage error exits with status 2", p.InstrPos(b.Instrs[len(b.Instrs)-1]), fmt.Sprintf("ends with status %d", k))
 		// no stdout password: only printUsage may precede
 		for _, c := range stdoutIn[b] {
 			r.Fail("R17.4", name, "stdout write on a usage-error path", p.InstrPos(c), "")
@@ -1023,6 +1220,9 @@ func checkMainCFG(p *core.Program, r *core.Report) {
 						if c2, ok := in2.(ssa.CallInstruction); ok && strings.HasPrefix(core.CallName(c2), "log.Fatal") {
 							fatal = true
 						}
+					}
+					if k, ends := exitStatus(errB, retStatus); retStatus && ends && k == 1 {
+						fatal = true // `return 1` from the run function handed to os.Exit
 					}
 					r.Check(fatal && len(stdoutIn[errB]) == 0, "R17.4", name, "a refused recipe ends in log.Fatal (status 1) with nothing on stdout", p.InstrPos(iff), "")
 					// stdout writes of the password must be on the ok edge
@@ -1070,6 +1270,10 @@ func checkMainCFG(p *core.Program, r *core.Report) {
 			if _, ok := in.(*ssa.Return); ok {
 				isRet = true
 			}
+		}
+		if k, ends := exitStatus(b, retStatus); isRet && retStatus && ends && k != 0 {
+			memo[b] = nil
+			return nil // a failure status: not a successful run
 		}
 		if isRet {
 			m := &mm{n, n}
@@ -1157,9 +1361,89 @@ func checkMainCFG(p *core.Program, r *core.Report) {
 	if pu := cli.usage; pu != nil {
 		for _, site := range p.Callers(pu) {
 			b := site.Block()
-			r.Check(dead[b] || site.Parent() != mainFn && blockExits(b), "R17.5", core.FuncName(site.Parent()), "printUsage is followed by os.Exit(2)", p.InstrPos(site), "")
+			k, ends := exitStatus(b, retStatus && site.Parent() == mainFn)
+			r.Check(dead[b] || site.Parent() != mainFn && blockExits(b) || retStatus && ends && k == 2, "R17.5", core.FuncName(site.Parent()), "printUsage is followed by os.Exit(2)", p.InstrPos(site), "")
 		}
 	}
+}
+
+// cmdInitFuncs: the synthesised package initialiser and every declared init function of the CLI.
+func cmdInitFuncs(p *core.Program) []*ssa.Function {
+	var out []*ssa.Function
+	if f := core.PackageInit(p.Cmd); f != nil {
+		out = append(out, f)
+		for _, c := range core.Calls(f) {
+			if g := core.StaticCallee(c); g != nil && g.Pkg == p.Cmd && strings.HasPrefix(g.Name(), "init#") {
+				out = append(out, g)
+			}
+		}
+	}
+	return out
+}
+
+// cliDriver returns the function holding the CLI's control flow: main itself, or
+// — when main is only `os.Exit(run(...))` — that run function, in which
+// `return k` is "exit with status k".
+func cliDriver(p *core.Program) (fn *ssa.Function, returnsStatus bool) {
+	mainFn := p.CmdFunc("main")
+	if mainFn == nil {
+		return nil, false
+	}
+	var exitArg *ssa.Call
+	nModule := 0
+	for _, c := range core.Calls(mainFn) {
+		if core.CallName(c) == "os.Exit" {
+			if cc, ok := c.Common().Args[0].(*ssa.Call); ok {
+				exitArg = cc
+			}
+			continue
+		}
+		if f := core.StaticCallee(c); f != nil && p.InModule(f) {
+			nModule++
+		}
+	}
+	if exitArg != nil && nModule == 1 {
+		if f := core.StaticCallee(exitArg); f != nil && p.InModule(f) && f.Blocks != nil && f.Signature.Results().Len() == 1 {
+			return f, true
+		}
+	}
+	return mainFn, false
+}
+
+// exitStatus: the process exit status with which block b ends the program
+// (ok=false when b does not end it). -1 = ends it with a status that is not a known constant.
+func exitStatus(b *ssa.BasicBlock, returnsStatus bool) (int64, bool) {
+	for _, in := range b.Instrs {
+		switch x := in.(type) {
+		case ssa.CallInstruction:
+			if !isNoReturnCall(x) {
+				continue
+			}
+			switch n := core.CallName(x); {
+			case n == "os.Exit":
+				if k, isC := core.ConstInt(x.Common().Args[0]); isC {
+					return k, true
+				}
+				return -1, true
+			case strings.HasPrefix(n, "log.Fatal"):
+				return 1, true
+			}
+			return -1, true
+		case *ssa.Panic:
+			return 2, true
+		case *ssa.Return:
+			if !returnsStatus {
+				return 0, true
+			}
+			if len(x.Results) == 1 {
+				if k, isC := core.ConstInt(x.Results[0]); isC {
+					return k, true
+				}
+			}
+			return -1, true
+		}
+	}
+	return 0, false
 }
 
 func blockExits(b *ssa.BasicBlock) bool {
